@@ -524,7 +524,7 @@ func (e *Engine) assertInvariants(s ast.Stmt, st *State, pos token.Pos, phase st
 			case *ast.RangeStmt:
 				end = l.Body.Rbrace
 			}
-			e.useLemma(cl.Expr, e.specEnvAt(st, end), st, cl.Where)
+			e.useLemma(cl.Expr, e.specEnvAt(st, end), st, cl.Where, hasTag(cl.Tags, "cond"))
 		}
 	}
 	for j, cl := range e.loopClauses(s, "invariant") {
